@@ -45,7 +45,7 @@ def component_lists(rng: random.Random, n_random=1):
     r.append(C('bump_into_wall', reward=rv()))
     tlist.append(C('bump_moving_obstacle'))
     tlist.append(C('bump_into_wall'))
-    for t in ['Exit', 'Key', 'Beacon']:
+    for t in ['Exit', 'Key', 'Beacon', 'Door']:   # Door: a target that may itself block movement (closed / locked)
         r.append(C('proportional_to_distance', object_type=t))
         r.append(C('proportional_to_distance', object_type=t, distance_function='manhattan', reward_per_unit_distance=rng.choice([-100, 250, -1500, 20])))
         r.append(C('proportional_to_distance', object_type=t, distance_function='euclidean', reward_per_unit_distance=rng.choice([-100, 250, -1500, 1000])))
